@@ -28,16 +28,19 @@ Section Sound.
     match tt with ByU16 => LZ4_DISTANCE_MAX <? LZ4_DISTANCE_ABSOLUTE_MAX | ByU32 => true end.
   (* a table entry is harmless: inside the history, or rejected by one of the two filters
      at every position of this block *)
-  Definition good (e : Z) : Prop :=
+  Definition good3 (e : Z) : Prop :=
     hist_lo <= e \/ (dictSmall = true /\ e < startIndex - dictSize)
     \/ (dist_active = true /\ e + LZ4_DISTANCE_MAX <= startIndex).
+  (* an entry of the working table below startIndex is never used with a dictionary context
+     (the dictionary's table is consulted instead) *)
+  Definition good (e : Z) : Prop := good3 e \/ (dd = CUsingDictCtx /\ e < startIndex).
   (* [L]: any lower bound of the table's content the caller wants to keep track of *)
   Variable L : Z.
   Hypothesis HL : L <= startIndex.
   Definition tab_ok (c : Z) (tab : mem) : Prop := forall h, L <= get tab h < c /\ good (get tab h).
 
   Hypothesis Hdt : dd = CUsingDictCtx ->
-                   forall h, get dtable h + dictDelta < startIndex /\ good (get dtable h + dictDelta).
+                   forall h, get dtable h + dictDelta < startIndex /\ good3 (get dtable h + dictDelta).
   Hypothesis Hu16 : dist_active = false -> startIndex + inputSize - MFLIMIT - hist_lo <= 65535.
 
   Let iend_ := iend startIndex inputSize.
@@ -57,8 +60,30 @@ Section Sound.
     tab_ok c tab -> c <= c' -> startIndex <= p < c' -> tab_ok c' (set tab h p).
   Proof.
     intros H Hc Hp h'. rewrite get_set. destruct (h =? h').
-    - split; [lia|]. left. pose proof hist_lo_le. lia.
+    - split; [lia|]. left. left. pose proof hist_lo_le. lia.
     - destruct (H h'). split; [lia | assumption].
+  Qed.
+
+  Hypothesis Hs0 : 0 <= startIndex.
+  (* truncated (16-bit) indices are only stored when they cannot be mistaken for a usable position *)
+  Hypothesis Hidx : tt = ByU16 ->
+                    mflimitPlusOne startIndex inputSize <= 65536
+                    \/ (dictSmall = true /\ 65536 <= startIndex - dictSize /\ L <= 0).
+
+  (* storing a position the way LZ4_putIndexOnHash does *)
+  Lemma tab_ok_put c c' tab h p :
+    tab_ok c tab -> c <= c' -> startIndex <= p < c' -> p < mfl -> tab_ok c' (set tab h (idx tt p)).
+  Proof.
+    intros H Hc Hp Hm. unfold idx.
+    assert (Hcase : tt = ByU32 \/ tt = ByU16) by (destruct tt; auto).
+    destruct Hcase as [Et|Et]; rewrite Et; [apply (tab_ok_set c); assumption|].
+    destruct (Hidx Et) as [Hs|(Hs1 & Hs2 & Hs3)].
+    - rewrite Z.mod_small by (fold mfl in Hs; lia). apply (tab_ok_set c); assumption.
+    - intros h'. rewrite get_set. destruct (h =? h').
+      + pose proof (Z.mod_pos_bound p 65536 ltac:(lia)).
+        assert (p mod 65536 <= p) by (apply Z.mod_le; lia).
+        split; [lia|]. left. right. left. split; [exact Hs1 | lia].
+      + destruct (H h'). split; [lia | assumption].
   Qed.
 
   Lemma candidate_spec c tab h :
@@ -70,18 +95,20 @@ Section Sound.
   Proof.
     intros Ht Hc. unfold candidate, lowLimit0.
     destruct (Ht h) as [[_ Hlt] Hg].
-    assert (G : forall e, good e -> e < c ->
+    assert (G : forall e, good3 e -> e < c ->
               ~ (dictSmall = true /\ e < startIndex - dictSize) ->
               ~ (dist_active = true /\ e + LZ4_DISTANCE_MAX < c) -> hist_lo <= e).
     { intros e [He|[He|He]] Hec N1 N2; [assumption | exfalso; apply N1; assumption |].
       exfalso. apply N2. split; [apply He | lia]. }
+    assert (G' : dd <> CUsingDictCtx -> good3 (get tab h)).
+    { intros Hd. destruct Hg as [Hg|[Hg _]]; [exact Hg | contradiction]. }
     pose proof hist_lo_le as Hle.
     assert (Hh : hist_lo = match dd with CNoDict => startIndex | _ => startIndex - dictSize end) by reflexivity.
     destruct dd eqn:Edd.
-    - split; [exact Hlt|]. intros N1 N2. pose proof (G _ Hg Hlt N1 N2). lia.
-    - split; [exact Hlt|]. intros N1 N2. pose proof (G _ Hg Hlt N1 N2). lia.
+    - split; [exact Hlt|]. intros N1 N2. pose proof (G _ (G' ltac:(discriminate)) Hlt N1 N2). lia.
+    - split; [exact Hlt|]. intros N1 N2. pose proof (G _ (G' ltac:(discriminate)) Hlt N1 N2). lia.
     - destruct (get tab h <? startIndex) eqn:E.
-      + split; [exact Hlt|]. intros N1 N2. pose proof (G _ Hg Hlt N1 N2). lia.
+      + split; [exact Hlt|]. intros N1 N2. pose proof (G _ (G' ltac:(discriminate)) Hlt N1 N2). lia.
       + split; [exact Hlt|]. intros _ _. lia.
     - destruct (get tab h <? startIndex) eqn:E.
       + destruct (Hdt eq_refl h) as [Hd1 Hd2].
@@ -164,10 +191,10 @@ Section Sound.
     { cbn [NPost c_anchor c_seqs c_tab]. split; [exact HS|].
       split; [unfold mfl, mflimitPlusOne, iend_, iend, MFLIMIT in *; lia|].
       eapply tab_ok_mono; [exact Ht|]. unfold endB, mfl, mflimitPlusOne, iend, MFLIMIT in *. lia. }
-    assert (Ht' : tab_ok (forwardIp + 1) (set tab fh forwardIp)) by (apply (tab_ok_set forwardIp); [assumption | lia | lia]).
+    assert (Ht' : tab_ok (forwardIp + 1) (set tab fh (idx tt forwardIp))) by (apply (tab_ok_put forwardIp); [assumption | lia | lia | lia]).
     assert (Hrec : NPost (search vrd tt od dd dictSmall startIndex dictSize dtable dictDelta inputSize maxOutputSize
                             f s (forwardIp + step) (smn / 2 ^ LZ4_skipTrigger) (smn + 1)
-                            (hashPosition vrd tt (forwardIp + step)) (set tab fh forwardIp))).
+                            (hashPosition vrd tt (forwardIp + step)) (set tab fh (idx tt forwardIp)))).
     { apply IH; try assumption; try lia.
       - eapply tab_ok_mono; [exact Ht' | lia].
       - assert (0 < 2 ^ LZ4_skipTrigger) by (unfold LZ4_skipTrigger; lia).
@@ -187,7 +214,7 @@ Section Sound.
     set (back := catchup vrd (Z.to_nat (forwardIp - c_anchor s)) forwardIp mi (c_anchor s) low 0) in *.
     destruct Hcu as (Hb1 & Hb2 & Hb3 & Hb4).
     assert (Hfm : forwardIp < mfl) by lia.
-    assert (Hpre : forall o hw, MPre (mkC (forwardIp - back) (c_anchor s) o (c_seqs s) (set tab fh forwardIp) hw)
+    assert (Hpre : forall o hw, MPre (mkC (forwardIp - back) (c_anchor s) o (c_seqs s) (set tab fh (idx tt forwardIp)) hw)
                                      (forwardIp - back - c_anchor s) (mi - back) low forwardIp).
     { intros o hw. unfold MPre. cbn [c_ip c_anchor c_seqs c_tab].
       split; [exact HS|]. split; [lia|]. split; [reflexivity|]. split; [lia|]. split; [lia|].
@@ -258,10 +285,10 @@ Section Sound.
     assert (Rest : forall o hw,
       NPost (if i1 >=? mfl then NLast (mkC i1 i1 o (sq :: c_seqs s) (c_tab s) (Z.max hw o))
              else
-               let tab := set (c_tab s) (hashPosition vrd tt (i1 - 2)) (i1 - 2) in
+               let tab := set (c_tab s) (hashPosition vrd tt (i1 - 2)) (idx tt (i1 - 2)) in
                let h := hashPosition vrd tt i1 in
                let '(mi2, low2) := candidate dd startIndex dictSize dtable dictDelta tab h in
-               let tab0 := set tab h i1 in
+               let tab0 := set tab h (idx tt i1) in
                if (if dictSmall then mi2 >=? prefixIdxLimit startIndex dictSize else true)
                   && match tt with
                      | ByU16 => if LZ4_DISTANCE_MAX =? LZ4_DISTANCE_ABSOLUTE_MAX then true else mi2 + LZ4_DISTANCE_MAX >=? i1
@@ -276,14 +303,14 @@ Section Sound.
         split; [unfold mlim, matchlimit, iend_, LASTLITERALS in *; lia|].
         eapply tab_ok_mono; [exact Ht|]. unfold endB, mfl, mflimitPlusOne, iend, MFLIMIT in *. lia. }
       cbv zeta.
-      assert (Ht1 : tab_ok i1 (set (c_tab s) (hashPosition vrd tt (i1 - 2)) (i1 - 2))).
-      { apply (tab_ok_set (Z.max fi i + 1)); [exact Ht | lia|]. unfold i1, MINMATCH in *. lia. }
+      assert (Ht1 : tab_ok i1 (set (c_tab s) (hashPosition vrd tt (i1 - 2)) (idx tt (i1 - 2)))).
+      { apply (tab_ok_put (Z.max fi i + 1)); [exact Ht | lia | unfold i1, MINMATCH in *; lia | lia]. }
       pose proof (candidate_spec i1 _ (hashPosition vrd tt i1) Ht1 ltac:(unfold i1, MINMATCH; lia)) as Hc.
       destruct (candidate dd startIndex dictSize dtable dictDelta
-                  (set (c_tab s) (hashPosition vrd tt (i1 - 2)) (i1 - 2)) (hashPosition vrd tt i1)) as [mi2 low2].
+                  (set (c_tab s) (hashPosition vrd tt (i1 - 2)) (idx tt (i1 - 2))) (hashPosition vrd tt i1)) as [mi2 low2].
       destruct Hc as [Hm2 Hlow2].
-      assert (Ht2 : tab_ok (i1 + 1) (set (set (c_tab s) (hashPosition vrd tt (i1 - 2)) (i1 - 2)) (hashPosition vrd tt i1) i1)).
-      { apply (tab_ok_set i1); [exact Ht1 | lia|]. unfold i1, MINMATCH in *. lia. }
+      assert (Ht2 : tab_ok (i1 + 1) (set (set (c_tab s) (hashPosition vrd tt (i1 - 2)) (idx tt (i1 - 2))) (hashPosition vrd tt i1) (idx tt i1))).
+      { apply (tab_ok_put i1); [exact Ht1 | lia | unfold i1, MINMATCH in *; lia | lia]. }
       match goal with |- NPost (if ?c then _ else _) => destruct c eqn:E2 end.
       - (* immediate re-match *)
         apply andb_prop in E2. destruct E2 as [E2 E4]. apply andb_prop in E2. destruct E2 as [E2 E3].
@@ -384,7 +411,8 @@ Section Sound.
       cbn [c_tab]. eapply tab_ok_mono; [exact Ht | unfold endB; lia].
     + apply main_loop_ok; cbn [c_anchor c_ip c_tab]; [apply HS0 | lia | | ].
       * unfold mfl, mflimitPlusOne, iend, MFLIMIT, LZ4_minLength in *. lia.
-      * apply (tab_ok_set (startIndex + 1)); [exact Ht | lia | lia].
+      * apply (tab_ok_put (startIndex + 1)); [exact Ht | lia | lia|].
+        unfold mfl, mflimitPlusOne, iend, MFLIMIT, LZ4_minLength in *. lia.
   Qed.
 
   (* ... hence the specification's decoder, given the visible history, decodes the emitted block
